@@ -65,6 +65,7 @@ func ccFlame(g *ccGates) *flamego.Flame {
 		g.gate(id)
 		c.Map(&reqTag{id})
 	})
+	f.Use(flamego.Renderer())
 	// two more middleware, added one by one: the middleware slice then has spare capacity (len 3, cap 4),
 	// which is what makes an append to it by one request visible to another
 	f.Use(func(c flamego.Context) {})
@@ -79,6 +80,13 @@ func ccFlame(g *ccGates) *flamego.Flame {
 			_, _ = c.ResponseWriter().Write(b)
 		}
 	}
+	f.Get("/rd/{v}", func(c flamego.Context, t *reqTag, r flamego.Render) {
+		id := idOf(c.Request().Request)
+		g.gate(id)
+		out := ccOut{H: "render", Val: c.Param("v"), Tag: t.id, URL: c.URLPath("named", "v", c.Request().Header.Get("X-Val")), Wid: id}
+		c.ResponseWriter().Header().Set("X-Wid", strconv.Itoa(id))
+		r.JSON(200, out) // through the Render service mapped by the Renderer middleware for this request
+	})
 	f.Get("/s", h("static"))
 	f.Get("/p/{v}", h("param")).Name("named")
 	f.Get("/o/?{v}", h("opt"))
@@ -90,7 +98,7 @@ func ccFlame(g *ccGates) *flamego.Flame {
 
 func ccRequest(rq ccReq) *http.Request {
 	path := map[string]string{"static": "/s", "param": "/p/" + rq.Val, "opt": "/o/" + rq.Val, "regex": "/r/" + rq.Val,
-		"all": "/a/" + rq.Val, "hdr": "/h"}[rq.Route]
+		"all": "/a/" + rq.Val, "hdr": "/h", "render": "/rd/" + rq.Val}[rq.Route]
 	r, _ := http.NewRequest("GET", path, nil)
 	r.Header.Set("X-Req-Id", strconv.Itoa(rq.ID))
 	r.Header.Set("X-Val", rq.Val)
@@ -175,7 +183,7 @@ func ccReplay(raw json.RawMessage, idx int, tr *traceWriter) {
 
 func ccGen(seed int64, n int, args []string, out *json.Encoder) {
 	rng := rand.New(rand.NewSource(seed))
-	kinds := []string{"static", "param", "opt", "regex", "all", "hdr"}
+	kinds := []string{"static", "param", "opt", "regex", "all", "hdr", "render", "render"}
 	for i := 0; i < n; i++ {
 		k := 8 + rng.Intn(57)
 		c := ccCase{Sched: []int{}}
